@@ -13,6 +13,7 @@ from ..drive import drive
 from ..helpers import discover_helpers, discover_notification_senders, synth_args, synth_value
 from ..jsongen import LEAVES, grammar_objects, id_is_interesting, is_nontrivial_json, json_objects, json_text, json_values, request_ids
 from ..jsonrpc_ref import classify, first_diff, strict_eq
+from ..logmode import debug_logging
 from ..runner import Collector, Outcome, hyp_run, hyp_shrink
 
 ID = "C02"
@@ -282,6 +283,14 @@ def _messages_for_transport(case: Dict[str, Any]) -> List[Tuple[Any, Dict[str, A
         (J.create_response(i), {"kind": "result", "id": i, "absent": ["error", "method"]}),
         (J.create_notification(method), {"kind": "notification", "method": method, "absent": ["params", "id", "result", "error"]}),
         (J.JSONRPCMessage.create_notification(method), {"kind": "notification", "method": method, "absent": ["params", "id", "result", "error"]}),
+        # the envelope classes called directly: the version member takes its default, nobody passes it
+        (J.JSONRPCRequest(id=i, method=method, params=payload), {"kind": "request", "id": i, "method": method, "params": payload}),
+        (J.JSONRPCNotification(method=method, params=payload), {"kind": "notification", "method": method, "params": payload}),
+        (J.JSONRPCResponse(id=i, result=payload), {"kind": "result", "id": i, "result": payload}),
+        (J.JSONRPCError(id=i, error={"code": code, "message": emsg, "data": payload}), {"kind": "error", "id": i, "error": {"code": code, "message": emsg, "data": payload}}),
+        (J.JSONRPCMessage(id=i, method=method, params=payload), {"kind": "request", "id": i, "method": method, "params": payload}),
+        (J.JSONRPCMessage(method=method), {"kind": "notification", "method": method, "absent": ["params", "id", "result", "error"]}),
+        (J.parse_message({"jsonrpc": "2.0", "id": i, "method": method, "params": payload}), {"kind": "request", "id": i, "method": method, "params": payload}),
     ]
 
 
@@ -317,9 +326,12 @@ def check_stdio_writer(case: Dict[str, Any]) -> Outcome:
                 await asyncio.sleep(0.05)
 
     inbound = {k: d for k, d in case.get("inbound", []) if k < len(msgs)}
+    if case.get("debug_log"):
+        out.classes = out.classes + ("logging:DEBUG",)
     if inbound or case.get("pad"):
         out.classes = out.classes + (("stdio-writer:inbound-batch-rejections",) if inbound else ()) + (("stdio-writer:lines>64KiB",) if case.get("pad", 0) > 65536 else ())
-    run_virtual(main)
+    with debug_logging(bool(case.get("debug_log"))):
+        run_virtual(main)
     data = procs[0].stdin.data
     lines = data.split(b"\n")
     if lines[-1] != b"":
@@ -365,7 +377,10 @@ def check_http_writer(case: Dict[str, Any]) -> Outcome:
     em = case["emitter"]
     out.classes = (f"emitter:{em}",)
     msgs = _messages_for_transport(case)
-    bodies = post_bodies_for("http" if em == "http-post" else "sse", [m for m, _ in msgs])
+    if case.get("debug_log"):
+        out.classes = out.classes + ("logging:DEBUG",)
+    with debug_logging(bool(case.get("debug_log"))):
+        bodies = post_bodies_for("http" if em == "http-post" else "sse", [m for m, _ in msgs])
     if len(bodies) != len(msgs):
         out.fail(f"{em}-body-count", f"{len(bodies)} POST bodies for {len(msgs)} messages")
         return out
@@ -524,11 +539,13 @@ def cases(draw, emitters: List[str]):
         case["schema_required"] = draw(st.sampled_from([[], ["name"], ["name", "k"], "name", None, [1]])) if draw(st.integers(0, 4)) else None
         if case["schema_required"] is None:
             del case["schema_required"]
+    if em in ("stdio-writer", "http-post", "sse-post") and draw(st.integers(0, 2)) == 0:
+        case["debug_log"] = True  # the application runs with logging.basicConfig(level=DEBUG)
     if em == "stdio-writer":
         if draw(st.integers(0, 3)) == 0:
             case["pad"] = draw(st.sampled_from([30000, 66000, 70000, 140000]))
         if draw(st.integers(0, 2)) == 0:
-            ks = sorted(set(draw(st.lists(st.integers(0, 8), min_size=1, max_size=3))))
+            ks = sorted(set(draw(st.lists(st.integers(0, 17), min_size=1, max_size=3))))
             case["inbound"] = [[k, draw(st.sampled_from([-1, 0, 1, 2, 3, 5]))] for k in ks]
     return case
 
